@@ -57,6 +57,46 @@ def stripGo : StripSt → List Char → List Char
 
 def stripShellComments (s : List Char) : List Char := stripGo .normal s
 
+/-! ### blank_comments -/
+
+/-- scanner states of `blank_comments`; `copy k rich` = copy the next `k` characters (the rest of a `-8<-` / `->8-` marker),
+    then continue inside (`rich = true`) or outside a rich text block -/
+inductive BlankSt where
+  | normal
+  | str (q : Char)
+  | rich
+  | copy (k : Nat) (rich : Bool)
+  | line
+  | blockOpen
+  | block
+  | blockClose
+  deriving Repr, DecidableEq
+
+/-- `blank_comments`: comments (`# …`, `// …`, `/* … */`) become blanks, newlines are kept; strings and `-8<- … ->8-` rich text
+    blocks are copied -/
+def blankGo : BlankSt → List Char → List Char
+  | _, [] => []
+  | .normal, c :: cs =>
+    if c = '"' ∨ c = '\'' then c :: blankGo (.str c) cs
+    else if c = '-' ∧ cs.take 3 = ['8', '<', '-'] then c :: blankGo (.copy 3 true) cs
+    else if c = '#' then ' ' :: blankGo .line cs
+    else if c = '/' ∧ cs.head? = some '/' then ' ' :: blankGo .line cs
+    else if c = '/' ∧ cs.head? = some '*' then ' ' :: blankGo .blockOpen cs
+    else c :: blankGo .normal cs
+  | .str q, c :: cs => if c = q then c :: blankGo .normal cs else c :: blankGo (.str q) cs
+  | .rich, c :: cs =>
+    if c = '-' ∧ cs.take 3 = ['>', '8', '-'] then c :: blankGo (.copy 3 false) cs else c :: blankGo .rich cs
+  | .copy k r, c :: cs =>
+    if k ≤ 1 then c :: blankGo (if r then .rich else .normal) cs else c :: blankGo (.copy (k - 1) r) cs
+  | .line, c :: cs => if c = '\n' then c :: blankGo .normal cs else ' ' :: blankGo .line cs
+  | .blockOpen, _ :: cs => ' ' :: blankGo .block cs
+  | .block, c :: cs =>
+    if c = '*' ∧ cs.head? = some '/' then ' ' :: blankGo .blockClose cs
+    else (if c = '\n' then c else ' ') :: blankGo .block cs
+  | .blockClose, _ :: cs => ' ' :: blankGo .normal cs
+
+def blankComments (s : List Char) : List Char := blankGo .normal s
+
 /-! ### bracket / brace matching -/
 
 /-- `count = d; while j < n and count > 0: (+1 on open, -1 on close); j += 1` started with `d ≥ 1`:
@@ -269,6 +309,9 @@ def expandMacros (E : Env) (cap : Option Nat) (s : List Char) : Outcome :=
 def process (env : Env) (cap : Option Nat) (text : List Char) : Outcome :=
   let r := extractMacros text
   expandMacros { env with defs := r.1 } cap r.2
+
+/-- `MacroProcessor.process` on a text: comments are blanked first -/
+def processText (env : Env) (cap : Option Nat) (text : List Char) : Outcome := process env cap (blankComments text)
 
 /-- the contents after each pass (for the bound theorem) -/
 def expandTrace (E : Env) (cap : Option Nat) : Nat → List Char → List (List Char)
